@@ -243,9 +243,7 @@ theorem lexPredicateOrLiteral_good (T : LexTables K) (q : Rune) (t : List Rune) 
   simp only
   split
   · exact ⟨q :: t, rfl⟩
-  · split
-    · exact lexPredicate_good T q t
-    · exact lexLiteral_good T q t
+  · exact lexPredicate_good T q t
   · split
     · exact lexPredicate_good T q t
     · exact lexLiteral_good T q t
